@@ -24,6 +24,22 @@ Variable, Find By Type Value, Write Request, Write Command — on single handles
 of the database: values, descriptors, CCCDs, service / include / characteristic declarations,
 the built-in GAP and GATT services) and on ranges / handle lists that mix open and protected
 attributes in every order.
+
+Link security, two ways:
+  direct-state cases   the harness puts the server's Connection object into {plain, encrypted, encrypted +
+                       authenticated} (Harness.set_link) and runs everything above once: all 256 permission bytes.
+  event-driven histories   the link gets its security the way the stack learns it: HCI Encryption Change (v1 and v2,
+                       on and off, success and failure, with / without / with a stale key size), Encryption Key
+                       Refresh Complete, Authentication Complete (success / failure) injected into the server's
+                       controller->host pipe as spec-written bytes, SMP pairing completion (authenticated key / Just
+                       Works key / failure) through Device.on_pairing, and real reconnections (the controllers reuse
+                       the connection handle). ref_att.LinkSecurity says what the link IS after each event; after EVERY
+                       step every reading / writing operation is run against every attribute of a database whose
+                       permission bytes are all combinations of the encryption / authentication requirement on the
+                       read and write side (+ authorization), so security going DOWN (encryption off, reconnection)
+                       is judged exactly like security going up. Keys of history violations end in
+                       `<unmet requirement>-requirement/after-<event class>`, the event class being the one after
+                       which the wrong grant was first seen (a wrong state persists over later events).
 """
 from __future__ import annotations
 
@@ -40,9 +56,23 @@ RULE = ('cases enumerate permission-byte chunk (8 x 32 = all 256 bytes on value 
         'permutation of all 256) x link state {plain, encrypted, encrypted+authenticated} x bearer {fixed, enhanced}; '
         'inside a case every attribute is exercised by the single-handle operations and every open/protected order '
         'pattern of length 2-3 by the range and handle-list operations. A case is non-trivial when it judged at least '
-        'one refused and one granted access; distinct = (chunk, link state, bearer, database seed)')
+        'one refused and one granted access; distinct = (chunk, link state, bearer, database seed). Event-driven '
+        'histories: 5 fixed histories of 10-11 link-security events (encryption up/down in every event form, '
+        'authentication then loss of security, failure events, reconnections, Just Works pairing) x bearer + seeded '
+        'random histories of 9 events; after every event the whole battery of operations is judged against the '
+        'state the events imply; distinct = (history, bearer, seed)')
 ASSUMPTIONS = [
-    'link security is what the server\'s Connection object says (encryption / authenticated set by the harness)',
+    'direct-state cases: link security is what the server\'s Connection object says (encryption / authenticated set '
+    'by the harness)',
+    'histories: link security is what the events imply (ref_att.LinkSecurity): Encryption Change with status success '
+    'sets encrypted := Encryption_Enabled != 0 in either event form and says nothing about authentication; failure '
+    'events and Key Refresh change nothing; Authentication Complete (success) and a pairing that ends with an '
+    'authenticated key make the link authenticated, a pairing that ends with a Just Works key makes it '
+    'unauthenticated; a new connection starts plain; an authentication requirement is met only by a link that is '
+    'authenticated AND encrypted (GAP 10.2.1: LE security mode 1 level 3)',
+    'histories use permission bytes with READABLE and WRITEABLE set (the access bits are judged by the direct-state '
+    'cases); pairing completion is injected at Device.on_pairing / on_pairing_failure (what the SMP session calls), '
+    'not run as an SMP exchange; HCI Authentication Complete is injected on the LE connection handle',
     'authorization cannot be granted by this stack, so an attribute that requires it is never accessible',
     'a refusal may carry any error code that names a requirement the link actually fails (several may fail at once); '
     'on an unencrypted link Insufficient Authentication and Insufficient Encryption are interchangeable (GAP 10.3.1)',
@@ -53,14 +83,26 @@ ASSUMPTIONS = [
     'service and characteristic declarations are exercised as gatt.py builds them (read-only) and with permissions '
     'changed by the application after construction',
 ]
+# deciding counters of the event-driven histories (quick; thorough: 6 x the fixed histories, 20 x the random ones)
+HISTORY_MIN = {
+    'history_steps_judged': 100, 'history_steps_with_refused_and_granted_accesses': 100,
+    'refused_accesses_judged_in_histories': 35000, 'value_unchanged_checks_in_histories': 20000,
+    'refused_after_encryption-off': 8000, 'refused_after_encryption-on': 8000, 'refused_after_reconnection': 2500,
+    'refused_after_key-refresh': 500, 'refused_after_authentication-complete': 1500,
+    'refused_after_pairing-complete': 2500, 'refused_after_pairing-complete-unauthenticated-key': 1800,
+    'refused_after_encryption-change-failed': 2000, 'refused_after_authentication-failed': 1200,
+    'refused_after_pairing-failed': 1000, 'security_went_down': 20, 'security_went_up': 30,
+    'encryption_change_events_v1': 20, 'encryption_change_events_v2': 30, 'reconnections_on_the_same_handle': 6,
+}
 MIN_EVENTS = {  # (downgrade_mid_long_read_probes is checked in quick only through the entry below)
 
     'quick': {'downgrade_mid_long_read_probes': 10, 'refused_accesses_judged': 18000, 'granted_accesses_seen': 5000, 'disclosure_scans': 20000,
               'value_unchanged_checks': 10000, 'mixed_order_requests': 3500, 'value_attributes_exercised': 1900,
-              'eatt_accesses': 14000, 'refusals_with_matching_error': 5000},
+              'eatt_accesses': 14000, 'refusals_with_matching_error': 5000, **HISTORY_MIN},
     'thorough': {'refused_accesses_judged': 430000, 'granted_accesses_seen': 120000, 'disclosure_scans': 480000,
                  'value_unchanged_checks': 240000, 'mixed_order_requests': 84000, 'value_attributes_exercised': 45000,
-                 'eatt_accesses': 336000, 'refusals_with_matching_error': 120000},
+                 'eatt_accesses': 336000, 'refusals_with_matching_error': 120000,
+                 **{k: v * 6 for k, v in HISTORY_MIN.items()}},
 }
 CASE_TIMEOUT = 300
 
@@ -80,6 +122,17 @@ def plan(tier, seed):
                 for bearer in ('att', 'eatt'):
                     cases.append({'chunk': chunk, 'link': li, 'bearer': bearer,
                                   'seed': seed * 1000003 + rep * 977 + chunk * 31 + li * 7 + (bearer == 'eatt')})
+    # event-driven histories: the fixed ones on both bearers, then seeded random ones
+    hreps = 1 if tier == 'quick' else 6
+    for rep in range(hreps):
+        for hi, (name, steps) in enumerate(HISTORIES):
+            for bearer in ('att', 'eatt'):
+                cases.append({'kind': 'history', 'name': name, 'steps': steps, 'bearer': bearer,
+                              'seed': seed * 1000003 + 500000 + rep * 977 + hi * 31 + (bearer == 'eatt')})
+    hrng = random.Random(seed * 7919 + 13)
+    for k in range(8 if tier == 'quick' else 160):
+        cases.append({'kind': 'history', 'name': 'random', 'steps': random_history(hrng, 9),
+                      'bearer': 'att' if k % 2 == 0 else 'eatt', 'seed': seed * 1000003 + 600000 + k})
     return cases
 
 
@@ -168,6 +221,10 @@ class Session:
         self.write_serial = 5000
         self.scanned = 0
         self.trail = 0
+        self.after = None           # history mode: class of the event that made the link what it is now
+        self.link = None            # history mode: ra.LinkSecurity
+        self.blame = {}             # history mode: requirement -> event class after which granting was first seen
+        self.blamed_now = set()
         for m in hs.models:
             if m.role == 'service' and m.value is not None and len(m.value) == 16 and m.value[0] == 0xE7:
                 # service declaration value = its 128-bit UUID, which the generator made a marker
@@ -179,6 +236,57 @@ class Session:
                 self.table.add(m.index, False)
             if m.marker and not self.readable(m):
                 self.refused_read[m.index] = m
+
+    # -- history mode ----------------------------------------------------------------
+    def relink(self, link, after, bearer=None):
+        """The link's security is now what the model `link` says, after an event of class `after`.
+        Everything received so far is judged against the state that held when it was sent."""
+        for b in self.hs.bearers:
+            self.scan(b)
+        for x in list(self.blame):
+            if x not in self.blamed_now or after == 'reconnection':
+                del self.blame[x]
+        self.blamed_now = set()
+        self.link, self.after = link, after
+        self.enc, self.auth = link.enc, link.auth
+        if bearer is not None:
+            self.bearer = bearer
+        self.refused_read = {m.index: m for m in self.hs.models if m.marker and not self.readable(m)}
+
+    def state_text(self):
+        if self.link is None:
+            return f'enc={self.enc} auth={self.auth}'
+        return (f'enc={self.enc} auth={self.auth} by the events {" > ".join(self.link.trail[-8:])}; the stack\'s '
+                f'Connection says (encryption, authenticated)={self.hs.stack_link_state()}')
+
+    def reason(self, m, write=False):
+        """direct-state cases: reason_of(); histories: the unmet requirement by name + the class of the last event"""
+        if self.after is None:
+            return reason_of(m.perm, self.enc, self.auth, write)
+        unmet = ra.unmet_requirement(m.perm, self.enc, self.auth, write)
+        base = f'{unmet}-requirement' if unmet else reason_of(m.perm, self.enc, self.auth, write)
+        return f'{base}/after-{self.after}'
+
+    def bad(self, key, detail):
+        """In a history the stack's state persists over the steps, so a wrong state is seen again after every later
+        event that (rightly) changes nothing. The key names the event after which granting against the requirement
+        was FIRST seen in the current unbroken run of steps showing it, not the latest event."""
+        if self.after is not None:
+            for x in ('encryption', 'authentication', 'authorization'):
+                tail = f'/{x}-requirement/after-{self.after}'
+                if key.endswith(tail):
+                    first = self.blame.setdefault(x, self.after)
+                    self.blamed_now.add(x)
+                    if first != self.after:
+                        key = key[:-len(tail)] + f'/{x}-requirement/after-{first}'
+                        detail = f'{detail} [first seen after {first}, still so after {self.after}]'
+        self.r.bad(key, detail)
+
+    def count_refused(self):
+        self.r.ev('refused_accesses_judged')
+        if self.after is not None:
+            self.r.ev('refused_accesses_judged_in_histories')
+            self.r.ev(f'refused_after_{self.after}')
 
     # -- predicate ----------------------------------------------------------------
     def readable(self, m):
@@ -210,36 +318,36 @@ class Session:
                 if m is not None and key in judged_elsewhere:
                     self.r.ev('disclosures_in_reply_to_the_request_that_addressed_the_attribute')
                 elif m is not None:
-                    self.r.bad(f'perm/disclosed/{ra.opname(pdu[0])}/{reason_of(m.perm, self.enc, self.auth)}',
-                               f'value of {m} (not readable with enc={self.enc} auth={self.auth}) appears in '
+                    self.bad(f'perm/disclosed/{ra.opname(pdu[0])}/{self.reason(m)}',
+                               f'value of {m} (not readable with {self.state_text()}) appears in '
                                f'{ra.opname(pdu[0])} on {bearer.kind}: {pdu[:40].hex()}; last request: {self.hs.ctx}')
         bearer._c11_scanned = len(bearer.rx)
 
     def judge_refusal(self, op, opn, m, replies, codes, reason, handle_must_match=True, accept_not_found=False):
         """`replies` answer request opcode `op`, which had to be refused because of attribute m."""
         r = self.r
-        r.ev('refused_accesses_judged')
+        self.count_refused()
         r.ev('oracle_evals')
         key_tail = f'{reason}'
         if not replies:
-            r.bad(f'perm/{opn}/unanswered/{key_tail}',
-                  f'{opn} touching {m} (enc={self.enc} auth={self.auth}) got no reply at all; {self.hs.ctx}')
+            self.bad(f'perm/{opn}/unanswered/{key_tail}',
+                  f'{opn} touching {m} ({self.state_text()}) got no reply at all; {self.hs.ctx}')
             return False
         pdu = replies[0]
         if len(replies) > 1:
-            r.bad(f'perm/{opn}/wrong-reply/{key_tail}', f'{len(replies)} replies: {[p[:8].hex() for p in replies]}')
+            self.bad(f'perm/{opn}/wrong-reply/{key_tail}', f'{len(replies)} replies: {[p[:8].hex() for p in replies]}')
             return False
         if pdu[0] != ra.ERROR_RSP:
             return None     # a response: caller decides whether its content is acceptable
         try:
             req, handle, code = ra.parse_error(pdu)
         except ra.Malformed as e:
-            r.bad(f'perm/{opn}/wrong-reply/{key_tail}', f'{e}: {pdu.hex()}')
+            self.bad(f'perm/{opn}/wrong-reply/{key_tail}', f'{e}: {pdu.hex()}')
             return False
         ok_codes = set(codes) | ({ra.E_ATTRIBUTE_NOT_FOUND} if accept_not_found else set())
         if req != op or code not in ok_codes or (handle_must_match and code in codes and handle != m.handle):
-            r.bad(f'perm/{opn}/wrong-reply/{key_tail}',
-                  f'{opn} touching {m} (enc={self.enc} auth={self.auth}) answered by error (req={req:#x} '
+            self.bad(f'perm/{opn}/wrong-reply/{key_tail}',
+                  f'{opn} touching {m} ({self.state_text()}) answered by error (req={req:#x} '
                   f'handle={handle:#x} code={code:#x}); acceptable codes {sorted(ok_codes)} for handle {m.handle:#x}; '
                   f'{self.hs.ctx}')
             return False
@@ -258,20 +366,20 @@ class Session:
                 elif replies and replies[0][0] == ra.ERROR_RSP:
                     r.ev('allowed_but_error')    # Attribute Not Long etc.: availability is not this property
                 continue
-            reason = reason_of(m.perm, self.enc, self.auth)
+            reason = self.reason(m)
             if replies and len(replies) == 1 and len(replies[0]) == 5 and replies[0][0] == ra.ERROR_RSP and \
                     replies[0][1] == op and replies[0][4] in (ra.E_ATTRIBUTE_NOT_LONG, ra.E_INVALID_OFFSET):
                 # these errors depend on the value's length: the server went past the permission check
-                r.ev('refused_accesses_judged')
+                self.count_refused()
                 r.ev('oracle_evals')
-                r.bad(f'perm/{opn}/granted/{reason}',
-                      f'{opn} of {m} with enc={self.enc} auth={self.auth} answered by error {replies[0][4]:#x}, which is '
+                self.bad(f'perm/{opn}/granted/{reason}',
+                      f'{opn} of {m} with {self.state_text()} answered by error {replies[0][4]:#x}, which is '
                       f'decided from the value (its length) instead of the permission')
                 continue
             res = self.judge_refusal(op, opn, m, replies, ra.read_refusal_codes(m.perm, self.enc, self.auth), reason)
             if res is None:
-                r.bad(f'perm/{opn}/granted/{reason}',
-                      f'{opn} of {m} with enc={self.enc} auth={self.auth} answered by {ra.opname(replies[0][0])} '
+                self.bad(f'perm/{opn}/granted/{reason}',
+                      f'{opn} of {m} with {self.state_text()} answered by {ra.opname(replies[0][0])} '
                       f'{replies[0][:24].hex()} instead of an error')
 
     def snapshot(self, m):
@@ -296,29 +404,32 @@ class Session:
                 if before is not None and after != before:
                     r.ev('granted_accesses_seen')
                     r.ev('granted_writes_took_effect')
-                    if m.kind == 'static' and m.marker and not self.readable(m):
-                        # the new content is now the protected value of this attribute
+                    if m.kind == 'static' and m.marker and (not self.readable(m) or self.after is not None):
+                        # the new content is now the protected value of this attribute (in a history:
+                        # of an attribute that a later event may protect)
                         self.table.add(self.write_serial, True, key=m.index)
                 continue
-            reason = reason_of(m.perm, self.enc, self.auth, write=True)
+            reason = self.reason(m, write=True)
             changed = False
             if before is not None:
                 r.ev('value_unchanged_checks')
+                if self.after is not None:
+                    r.ev('value_unchanged_checks_in_histories')
                 r.ev('oracle_evals')
                 if after != before:
                     changed = True
-                    r.bad(f'perm/{opn}/changed/{reason}',
-                          f'{opn} to {m} (not writable with enc={self.enc} auth={self.auth}) changed the server-side '
+                    self.bad(f'perm/{opn}/changed/{reason}',
+                          f'{opn} to {m} (not writable with {self.state_text()}) changed the server-side '
                           f'value from {str(before)[:40]} to {str(after)[:40]}')
                     if m.kind == 'static':
                         m.obj.value = before    # restore so that later clauses see the original database
             if op == ra.WRITE_REQ:
                 res = self.judge_refusal(op, opn, m, replies, ra.write_refusal_codes(m.perm, self.enc, self.auth), reason)
                 if res is None and not changed:
-                    r.bad(f'perm/{opn}/granted/{reason}',
-                          f'write to {m} with enc={self.enc} auth={self.auth} answered by {ra.opname(replies[0][0])}')
+                    self.bad(f'perm/{opn}/granted/{reason}',
+                          f'write to {m} with {self.state_text()} answered by {ra.opname(replies[0][0])}')
             else:
-                r.ev('refused_accesses_judged')
+                self.count_refused()
 
     # -- ranges and handle lists ----------------------------------------------------
     async def ranged(self, members, type_le, pattern, group_type=False):
@@ -334,7 +445,7 @@ class Session:
         first_refused = next((m for m in members if not self.readable(m)), None)
         if first_refused is None:
             return
-        reason = reason_of(first_refused.perm, self.enc, self.auth)
+        reason = self.reason(first_refused)
         pos = 'first' if first_refused is members[0] else 'later'
         codes = ra.read_refusal_codes(first_refused.perm, self.enc, self.auth)
         if replies and len(replies) == 1 and len(replies[0]) == 5 and replies[0][0] == ra.ERROR_RSP and replies[0][1] == op:
@@ -343,11 +454,11 @@ class Session:
             if any(eh == m.handle and ec in ra.read_refusal_codes(m.perm, self.enc, self.auth) for m in later) and \
                     not (eh == first_refused.handle):
                 # the error names a protected attribute *behind* the first one: the first was passed over
-                r.ev('refused_accesses_judged')
+                self.count_refused()
                 r.ev('oracle_evals')
-                r.bad(f'perm/{opn}/granted/{reason}',
+                self.bad(f'perm/{opn}/granted/{reason}',
                       f'{opn} {start:#x}..{end:#x} over pattern {pattern}: error names handle {eh:#x} (code {ec:#x}) although '
-                      f'{first_refused} comes first and is not readable (enc={self.enc} auth={self.auth})')
+                      f'{first_refused} comes first and is not readable ({self.state_text()})')
                 return
         res = self.judge_refusal(op, opn + '/' + pos, first_refused, replies, codes, reason)
         if res is None:
@@ -357,14 +468,14 @@ class Session:
             try:
                 listed = [e[0] for e in (ra.parse_read_by_group_type_rsp(pdu) if group_type else ra.parse_read_by_type_rsp(pdu))]
             except ra.Malformed as e:
-                r.bad(f'perm/{opn}/{pos}/wrong-reply/{reason}', f'{e}: {pdu[:30].hex()}')
+                self.bad(f'perm/{opn}/{pos}/wrong-reply/{reason}', f'{e}: {pdu[:30].hex()}')
                 return
             bad = [hd for hd in listed if hd in self.hs.by_handle and not self.readable(self.hs.by_handle[hd])]
             if pos == 'first' or bad:
-                r.bad(f'perm/{opn}/granted/{reason}',
+                self.bad(f'perm/{opn}/granted/{reason}',
                       f'{opn} {start:#x}..{end:#x} over pattern {pattern} lists handles {[hex(x) for x in listed]}; '
                       f'protected: {[hex(m.handle) for m in members if not self.readable(m)]} '
-                      f'(enc={self.enc} auth={self.auth})')
+                      f'({self.state_text()})')
             else:
                 r.ev('ranged_list_stopped_before_protected')
 
@@ -379,7 +490,7 @@ class Session:
             if not refused:
                 continue
             first = refused[0]
-            reason = reason_of(first.perm, self.enc, self.auth)
+            reason = self.reason(first)
             pos = 'first' if first is members[0] else 'later'
             # the error may name any refused attribute of the set with that attribute's own code
             ok = False
@@ -387,7 +498,7 @@ class Session:
                 req, handle, code = ra.parse_error(replies[0])
                 ok = req == op and any(handle == m.handle and code in ra.read_refusal_codes(m.perm, self.enc, self.auth)
                                        for m in refused)
-            r.ev('refused_accesses_judged')
+            self.count_refused()
             r.ev('oracle_evals')
             if not ok and pos == 'later' and replies and len(replies) == 1 and replies[0][0] == ra.RESPONSE_OF[op]:
                 # a response that ends before the first protected handle touched nothing protected
@@ -413,14 +524,14 @@ class Session:
             if ok:
                 r.ev('refusals_with_matching_error')
             elif not replies:
-                r.bad(f'perm/{opn}/{pos}/unanswered/{reason}',
-                      f'{opn} {[hex(x) for x in handles]} (pattern {pattern}, enc={self.enc} auth={self.auth}) got no reply')
+                self.bad(f'perm/{opn}/{pos}/unanswered/{reason}',
+                      f'{opn} {[hex(x) for x in handles]} (pattern {pattern}, {self.state_text()}) got no reply')
             elif replies[0][0] == ra.ERROR_RSP:
-                r.bad(f'perm/{opn}/{pos}/wrong-reply/{reason}',
+                self.bad(f'perm/{opn}/{pos}/wrong-reply/{reason}',
                       f'{opn} {[hex(x) for x in handles]} answered by {replies[0].hex()}; protected: '
                       f'{[(hex(m.handle), sorted(ra.read_refusal_codes(m.perm, self.enc, self.auth))) for m in refused]}')
             else:
-                r.bad(f'perm/{opn}/granted/{reason}',
+                self.bad(f'perm/{opn}/granted/{reason}',
                       f'{opn} {[hex(x) for x in handles]} (pattern {pattern}) answered by {ra.opname(replies[0][0])} '
                       f'{replies[0][:30].hex()} although {[hex(m.handle) for m in refused]} are not readable')
 
@@ -436,13 +547,13 @@ class Session:
             refused = [m for m in members if not self.readable(m)]
             if not refused:
                 continue
-            reason = reason_of(refused[0].perm, self.enc, self.auth)
+            reason = self.reason(refused[0])
             tclass = 'target-protected' if not self.readable(target) else 'target-open'
-            r.ev('refused_accesses_judged')
+            self.count_refused()
             r.ev('oracle_evals')
             key = f'{reason}'
             if not replies:
-                r.bad(f'perm/find-by-type-value/{tclass}/unanswered/{key}',
+                self.bad(f'perm/find-by-type-value/{tclass}/unanswered/{key}',
                       f'find-by-type-value {start:#x}..{end:#x} type {t16:#x} (pattern {pattern}) got no reply')
                 continue
             pdu = replies[0]
@@ -452,20 +563,20 @@ class Session:
                 for m in refused:
                     okc |= ra.read_refusal_codes(m.perm, self.enc, self.auth)
                 if req != ra.FIND_BY_TYPE_VALUE_REQ or code not in okc:
-                    r.bad(f'perm/find-by-type-value/{tclass}/wrong-reply/{key}', f'answered by {pdu.hex()}')
+                    self.bad(f'perm/find-by-type-value/{tclass}/wrong-reply/{key}', f'answered by {pdu.hex()}')
                 else:
                     r.ev('refusals_with_matching_error')
                 continue
             try:
                 found = [e[0] for e in ra.parse_find_by_type_value_rsp(pdu)]
             except ra.Malformed as e:
-                r.bad(f'perm/find-by-type-value/{tclass}/wrong-reply/{key}', f'{e}: {pdu[:30].hex()}')
+                self.bad(f'perm/find-by-type-value/{tclass}/wrong-reply/{key}', f'{e}: {pdu[:30].hex()}')
                 continue
             leaked = [hd for hd in found if hd in self.hs.by_handle and not self.readable(self.hs.by_handle[hd])]
             if leaked:
-                r.bad(f'perm/find-by-type-value/{tclass}/disclosed/{key}',
+                self.bad(f'perm/find-by-type-value/{tclass}/disclosed/{key}',
                       f'find-by-type-value confirms the value of protected handles {[hex(x) for x in leaked]} '
-                      f'(pattern {pattern}, enc={self.enc} auth={self.auth}): {pdu.hex()}')
+                      f'(pattern {pattern}, {self.state_text()}): {pdu.hex()}')
             else:
                 r.ev('find_by_type_value_listed_only_open')
 
@@ -473,6 +584,8 @@ class Session:
 async def run_case(case, r: R):
     import logging
     logging.disable(logging.CRITICAL)
+    if case.get('kind') == 'history':
+        return await history_case(case, r)
     from vlib import att_peer as ap
 
     rng = random.Random(case['seed'])
@@ -518,7 +631,7 @@ async def run_case(case, r: R):
                 continue
             r.ev('downgrade_mid_long_read_probes')
             replies = await ss.ask(ra.read_blob(m.handle, 1), 'read-blob', [m])
-            r.ev('refused_accesses_judged')
+            ss.count_refused()
             r.ev('oracle_evals')
             if replies and replies[0][0] == ra.READ_BLOB_RSP:
                 r.bad('perm/read-blob/granted/after-security-downgrade',
@@ -574,15 +687,267 @@ async def run_case(case, r: R):
                 'declaration_patterns': [d['pattern'] for d in decl_groups]}
 
 
-LEVEL_TEXT = ('Independent permission predicate + unique marker values: for 48 (quick) / 1152 (thorough) sessions covering '
+# -----------------------------------------------------------------------------
+# Event-driven histories: the link's security is what the EVENTS the stack received make it
+# -----------------------------------------------------------------------------
+# steps (JSON-able):
+#   ['enc', form 'v1'|'v2', enabled, key size (v2 only), status]   HCI Encryption Change
+#   ['refresh', status]                                            HCI Encryption Key Refresh Complete
+#   ['auth', status]                                               HCI Authentication Complete
+#   ['paired', authenticated key?, secure connections?]           SMP pairing completed (Device.on_pairing)
+#   ['pairing-failed']                                             SMP pairing failed (Device.on_pairing_failure)
+#   ['reconnect', who disconnects 'raw'|'server']                  link dropped, new connection
+ON1, ON2, ON2S = ['enc', 'v1', 1, None, 0], ['enc', 'v2', 1, 16, 0], ['enc', 'v2', 1, 7, 0]
+OFF1, OFF2, OFF2K = ['enc', 'v1', 0, None, 0], ['enc', 'v2', 0, 0, 0], ['enc', 'v2', 0, 16, 0]
+FAIL1, FAIL2 = ['enc', 'v1', 1, None, ra.ST_PIN_OR_KEY_MISSING], ['enc', 'v2', 1, 16, ra.ST_LMP_RESPONSE_TIMEOUT]
+FAILOFF1 = ['enc', 'v1', 0, None, ra.ST_LMP_RESPONSE_TIMEOUT]
+REFRESH, REFRESH_FAILED = ['refresh', 0], ['refresh', ra.ST_LMP_RESPONSE_TIMEOUT]
+AUTH, AUTH_FAILED = ['auth', 0], ['auth', ra.ST_AUTHENTICATION_FAILURE]
+PAIRED, PAIRED_LEGACY, PAIRING_FAILED = ['paired', True, True], ['paired', True, False], ['pairing-failed']
+PAIRED_JW, PAIRED_JW_LEGACY = ['paired', False, True], ['paired', False, False]
+RECONNECT_RAW, RECONNECT_SERVER = ['reconnect', 'raw'], ['reconnect', 'server']
+
+HISTORIES = [
+    # encryption up and down in every form, each form undone by each form
+    ('encryption-up-down', [ON1, OFF1, ON2, OFF2, ON2S, OFF2K, ON1, OFF2, ON2, OFF1, OFF1]),
+    # authenticated first, then encrypted; security lost by encryption off and by reconnection
+    ('authentication-then-down', [PAIRED, ON1, REFRESH, OFF1, ON2, RECONNECT_RAW, ON2, AUTH, OFF2, ON1]),
+    # events that report a FAILURE change nothing, on a plain and on an encrypted link
+    ('failures-change-nothing', [FAIL1, AUTH_FAILED, FAIL2, PAIRING_FAILED, ON1, AUTH_FAILED, PAIRING_FAILED,
+                                 FAILOFF1, REFRESH_FAILED, OFF1, FAIL2]),
+    # a new connection starts plain whatever the old one was
+    ('reconnections', [ON2, AUTH, RECONNECT_RAW, ON1, PAIRED_LEGACY, RECONNECT_SERVER, AUTH, RECONNECT_RAW, ON1, OFF2]),
+    # a pairing that gave no MITM protection (Just Works) leaves an encrypted, NOT authenticated link
+    ('just-works-is-not-authentication', [ON2, PAIRED_JW, REFRESH, OFF2, RECONNECT_SERVER, ON1, PAIRED_JW_LEGACY, PAIRED,
+                                          OFF1, ON2, PAIRED_JW]),
+]
+ALPHABET = [ON1, ON2, ON2S, OFF1, OFF2, OFF2K, FAIL1, FAIL2, FAILOFF1, REFRESH, REFRESH_FAILED, AUTH, AUTH_FAILED,
+            PAIRED, PAIRED_LEGACY, PAIRING_FAILED, RECONNECT_RAW, RECONNECT_SERVER, PAIRED_JW, PAIRED_JW_LEGACY]
+WEIGHTS = [4, 4, 2, 4, 4, 2, 1, 1, 1, 1, 1, 3, 1, 2, 1, 1, 1, 1, 2, 1]
+
+
+def random_history(rng, n):
+    steps = []
+    encrypted = False
+    while len(steps) < n:
+        st = rng.choices(ALPHABET, WEIGHTS)[0]
+        if st[0] == 'refresh' and not encrypted:
+            continue                    # a key can only be refreshed on an encrypted link
+        if st[0] == 'enc' and st[4] == 0:
+            encrypted = bool(st[2])
+        if st[0] == 'reconnect':
+            if sum(1 for x in steps if x[0] == 'reconnect') >= 2:
+                continue
+            encrypted = False
+        steps.append(st)
+    return steps
+
+
+def step_class(st):
+    if st[0] == 'enc':
+        return 'encryption-change-failed' if st[4] else ('encryption-on' if st[2] else 'encryption-off')
+    if st[0] == 'refresh':
+        return 'key-refresh-failed' if st[1] else 'key-refresh'
+    if st[0] == 'auth':
+        return 'authentication-failed' if st[1] else 'authentication-complete'
+    if st[0] == 'paired':
+        return 'pairing-complete' if st[1] else 'pairing-complete-unauthenticated-key'
+    return {'pairing-failed': 'pairing-failed', 'reconnect': 'reconnection'}[st[0]]
+
+
+# permission bytes of the histories: READABLE and WRITEABLE always set (the access bits are the business of the
+# direct-state cases), every combination of the encryption / authentication requirement on either side, and
+# authorization on either side
+H_PERMS = [0x03, 0x07, 0x0B, 0x0F, 0x13, 0x23, 0x33, 0x17, 0x2B, 0x1B, 0x27, 0x3F, 0x1F, 0x2F, 0x37, 0x3B, 0x43, 0x83]
+H_SYMBOLS = {'O': 0x03, 'E': 0x0F, 'A': 0x33, 'B': 0x3F, 'Z': 0x43}
+H_PATTERNS = ['OE', 'EO', 'OA', 'AO', 'EAO', 'OBE', 'AE', 'OZE', 'BOA']
+H_DECL_PATTERNS = [('O', 'E'), ('E', 'O'), ('O', 'A', 'E'), ('A', 'O')]
+H_DECL_PERMS = {'O': 0x01, 'E': 0x05, 'A': 0x11}
+
+
+def build_history_spec(rng):
+    idx = itertools.count(1)
+    chars = []
+    for k, p in enumerate(H_PERMS):
+        i = next(idx)
+        c = {'uuid': struct.pack('<H', 0xA100 + k).hex() if k % 3 else ra.marker_value(3000 + i, 16).hex(),
+             'props': 0x1A if k % 6 == 0 else 0x0A, 'perm': p, 'len': rng.choice([8, 30, 60]), 'index': i,
+             'kind': rng.choice(['static', 'static', 'static', 'dyn', 'dyn-v2', 'dyn-async']), 'descs': []}
+        c['descs'].append({'uuid': rng.choice(['0129', struct.pack('<H', 0xA900 + k).hex()]),
+                           'perm': H_PERMS[(k * 7 + 5) % len(H_PERMS)], 'len': 8, 'index': next(idx),
+                           'kind': rng.choice(['static', 'static', 'dyn'])})
+        chars.append(c)
+    services = [{'uuid': ra.marker_value(2000, 16).hex(), 'primary': True, 'chars': chars, 'includes': []}]
+    groups = []
+    for gi, pat in enumerate(H_PATTERNS):
+        uuid = struct.pack('<H', 0xC000 + gi).hex()
+        ln = rng.choice([6, 8, 12])
+        gchars = [{'uuid': uuid, 'props': 0x0A, 'perm': H_SYMBOLS[sym], 'len': ln, 'index': next(idx),
+                   'kind': rng.choice(['static', 'static', 'dyn']), 'descs': []} for sym in pat]
+        groups.append({'pattern': pat, 'uuid': uuid, 'indices': [c['index'] for c in gchars]})
+        services.append({'uuid': ra.marker_value(2100 + gi, 16).hex(), 'primary': True, 'chars': gchars, 'includes': []})
+    decl_groups = []
+    for pat in H_DECL_PATTERNS:
+        members = []
+        for sym in pat:
+            si = next(idx)
+            p = H_DECL_PERMS[sym]
+            services.append({'uuid': ra.marker_value(si, 16).hex(), 'primary': True, 'perm': p, 'index': si,
+                             'chars': [{'uuid': struct.pack('<H', 0xD000 + si).hex(), 'props': 0x02, 'perm': 0x01,
+                                        'len': 8, 'index': next(idx), 'kind': 'static', 'descs': [],
+                                        'decl_perm': rng.choice([None, p])}],
+                             'includes': []})
+            members.append(si)
+        decl_groups.append({'pattern': ''.join(pat), 'service_indices': members})
+    return services, groups, decl_groups
+
+
+async def history_case(case, r: R):
+    from vlib import att_peer as ap
+
+    rng = random.Random(case['seed'])
+    steps = case['steps']
+    spec, groups, decl_groups = build_history_spec(rng)
+    side = R(case)
+    eatt = case['bearer'] == 'eatt'
+    raw_central = rng.random() < 0.5
+    hs = await ap.Harness.create(side, case['seed'], spec, eatt='config' if eatt else 'off', raw_central=raw_central,
+                                 max_delay=rng.choice([0, 0, 1, 2]),
+                                 le_acl_len=[rng.choice([27, 251]), rng.choice([27, 251])])
+    eatt_cid = itertools.count(0x0055)
+
+    async def bearer_now():
+        if not eatt:
+            await hs.exchange(hs.fixed, ra.exchange_mtu(rng.choice([23, 23, 64, 185])), 'mtu')
+            return hs.fixed
+        b = await hs.open_eatt(my_cid=next(eatt_cid), my_mtu=rng.choice([64, 185, 517]), my_mps=rng.choice([64, 251]),
+                               credits=200)
+        if b is None:
+            raise RuntimeError('could not open an enhanced ATT bearer')
+        return b
+
+    link = ra.LinkSecurity()
+    ss = Session(hs, await bearer_now(), r, link.enc, link.auth, rng)
+    ss.relink(link, 'connection')
+    by_index = {m.index: m for m in hs.models if m.index > 0}
+    # The access bits are judged by the direct-state cases (and bumble's leniency about them is a recorded
+    # finding): a history exercises the attributes whose access bit is set, so that every refusal it judges is
+    # decided by a security requirement, and writes to attributes without any write permission
+    readers = [m for m in hs.models if m.perm & ra.P_READABLE]
+    writers = [m for m in hs.models if m.perm & ra.P_WRITEABLE or not m.perm & WRITE_FAMILY]
+    decl_members = []
+    for dg in decl_groups:
+        members = [m for m in hs.models if m.role == 'service' and m.index - 100000 == m.handle
+                   and m.value in [ra.marker_value(si, 16) for si in dg['service_indices']]]
+        if len(members) == len(dg['service_indices']):
+            decl_members.append((dg['pattern'], members))
+    handles_seen = [hs.server_conn.handle]
+    visited = set()
+
+    async def battery(light):
+        """every reading / writing operation against the link as it is NOW"""
+        before = (r.events.get('refused_accesses_judged', 0), r.events.get('granted_accesses_seen', 0))
+        order = list(readers)
+        rng.shuffle(order)
+        for m in order:
+            await ss.single_reads(m)
+        for g in groups:
+            members = [by_index[i] for i in g['indices']]
+            t = bytes.fromhex(g['uuid'])
+            await ss.ranged(members, t, g['pattern'])
+            await ss.multi(members, g['pattern'])
+            if not light:
+                await ss.multi(list(reversed(members)), g['pattern'][::-1] + '/reversed')
+            await ss.find_by_value(members, t, g['pattern'])
+        for pattern, members in decl_members:
+            await ss.ranged(members, bytes.fromhex('0028'), 'services ' + pattern, group_type=True)
+            if not light:
+                await ss.find_by_value(members, bytes.fromhex('0028'), 'services ' + pattern)
+        worder = list(writers)
+        rng.shuffle(worder)
+        for m in worder:
+            await ss.single_writes(m)
+        # content written while the link qualified must not come back once it does not
+        for m in order[:24]:
+            await ss.single_reads(m)
+        r.ev('history_steps_judged')
+        r.ev(f'history_steps_judged_after_{ss.after}')
+        if r.events.get('refused_accesses_judged', 0) > before[0] and r.events.get('granted_accesses_seen', 0) > before[1]:
+            r.ev('history_steps_with_refused_and_granted_accesses')
+
+    await battery(False)
+    for st in steps:
+        cls = step_class(st)
+        was = (link.enc, link.auth)
+        handle = hs.server_conn.handle
+        new_bearer = None
+        if st[0] == 'enc':
+            _k, form, enabled, key_size, status = st
+            pkt = ra.hci_encryption_change(handle, enabled, status) if form == 'v1' else \
+                ra.hci_encryption_change_v2(handle, enabled, key_size, status)
+            await hs.controller_event(pkt)
+            link.encryption_change(status, enabled, key_size)
+            r.ev(f'encryption_change_events_{form}')
+        elif st[0] == 'refresh':
+            await hs.controller_event(ra.hci_encryption_key_refresh_complete(handle, st[1]))
+            link.key_refresh(st[1])
+        elif st[0] == 'auth':
+            await hs.controller_event(ra.hci_authentication_complete(handle, st[1]))
+            link.authentication_complete(st[1])
+        elif st[0] == 'paired':
+            await hs.pairing_completed(st[1], st[2])
+            link.pairing_complete(st[1])
+        elif st[0] == 'pairing-failed':
+            await hs.pairing_failed()
+            link.pairing_failed()
+        elif st[0] == 'reconnect':
+            await hs.reconnect(raw_central, st[1])
+            link.new_connection()
+            new_bearer = await bearer_now()
+            handles_seen.append(hs.server_conn.handle)
+            if hs.server_conn.handle == handle:
+                r.ev('reconnections_on_the_same_handle')
+        r.ev('link_security_events')
+        r.ev(f'events_{cls}')
+        now = (link.enc, link.auth)
+        if now < was:
+            r.ev('security_went_down')
+        elif now > was:
+            r.ev('security_went_up')
+        ss.relink(link, cls, new_bearer)
+        # the full battery the first time a (state, event class) pair is met, a lighter one afterwards
+        k = (now, cls)
+        await battery(k in visited)
+        visited.add(k)
+    await hs.finish()
+    for b in hs.bearers:
+        ss.scan(b)
+    if r.events.get('refused_accesses_judged', 0) > 0 and r.events.get('granted_accesses_seen', 0) > 0:
+        r.sig('history', case['name'], case['bearer'], case['seed'])
+    r.sched.add(hs.rg.schedule_signature)
+    r.evals(ss.trail)
+    r.ev('pairing_automaton_violations_left_to_C10', len(side.violations))
+    r.sample = {'history': case['name'], 'steps': [step_class(s) for s in steps], 'events_as_modelled': link.trail,
+                'bearer': case['bearer'], 'attributes': len(hs.models), 'requests': ss.trail,
+                'connection_handles': [hex(x) for x in handles_seen]}
+
+
+LEVEL_TEXT = ('Independent permission predicate + unique marker values: for 144 (quick) / 1152 (thorough) sessions covering '
               'all 256 permission bytes on value attributes and on descriptors, three link-security states and both bearer '
               'kinds, every attribute of a generated database (values, descriptors, CCCDs, declarations, built-in services) '
               'is attacked through Read, Read Blob, Write Request and Write Command, and every open/protected order of '
               'length 2-3 through Read By Type, Read By Group Type, Read Multiple, Read Multiple Variable and Find By Type '
               'Value; every server->client PDU of the session is scanned for markers of attributes the link may not read, '
               'server-side values are compared before/after refused writes, and refusals must carry an error naming a '
-              'requirement the link really fails. Enumeration of paths and flags on sampled databases, not proof.')
-LEVEL_NOTE = ('Trusted: vlib/ref_att.py (predicate, layouts, marker scan), vlib/att_peer.py. Link security is set on the '
-              'server Connection object, not negotiated. Availability (an allowed access being served) is only counted, '
+              'requirement the link really fails. In addition 18 (quick) / 220 (thorough) event-driven histories give '
+              'the link its security through the events the stack receives (Encryption Change v1/v2 on/off/failed, Key '
+              'Refresh, Authentication Complete, pairing completion with an authenticated or a Just Works key, '
+              'reconnection on the same handle) and repeat the whole battery after every event against an independent '
+              'model of the state those events imply, security going down included. Enumeration of paths, flags and '
+              'event orders on sampled databases, not proof.')
+LEVEL_NOTE = ('Trusted: vlib/ref_att.py (predicate, layouts, marker scan, LinkSecurity model, HCI event bytes), '
+              'vlib/att_peer.py. Direct-state cases set link security on the server Connection object; histories inject '
+              'the controller events and the pairing outcome, they do not run an SMP exchange or real link-layer '
+              'encryption; LE links only (no ATT over BR/EDR). Availability (an allowed access being served) is only counted, '
               'never judged. Pairing/MTU verdicts of the same sessions belong to C10.')
 TECHNIQUE = 'runtime monitoring: independent permission predicate + marker-value disclosure scan + before/after value comparison over a hand-driven raw ATT client'
